@@ -65,7 +65,7 @@ def main():
         },
         "engines": [{"name": "sa", "path": "/verif/sa", "serves_properties": sorted(reg), "kind_free_text": "pure-stdlib ast analyses: program model, CFG+dominators, 0-CFA type flow and call graph, effect summaries, gated symbolic value numbering with rational normal forms, float-exact rewriting"}],
         "checks": checks,
-        "notes": "Exit codes: 0 all obligations discharged (KNOWN-FINDING lines printed for listed findings); 1 VIOLATION; 2 ANALYSIS-ERROR (anchor vanished / construct not understood / checker crash) - never a silent pass. /repo carries 11 unguarded 'fix:' commits (see known_findings.json); no hooks.",
+        "notes": "Exit codes: 0 all obligations discharged (KNOWN-FINDING lines printed for listed findings); 1 VIOLATION; 2 ANALYSIS-ERROR (anchor vanished / construct not understood / checker crash) - never a silent pass. /repo carries 12 unguarded 'fix:' commits (see known_findings.json); no hooks.",
         "not_applicable": na,
     }
     json.dump(m, open('/verif/MANIFEST.json', 'w'), indent=1)
